@@ -37,7 +37,7 @@ git apply "$src/patch.diff"
 sv=$(mktemp -d /tmp/valverif.XXXXXX); cp /verif/known_findings.json /verif/properties.jsonl "$sv/"
 det=""
 for p in C01 C02 C03 C04 C05 C06 C07 C08 C09 C10 C11 C12 C13 C14 C15 C16 C17 C18 C19 C20; do
-  ( /verif/bin/rtpcheck -prop $p -repo "$wt" -verif "$sv" > "$sv/$p.out" 2>&1; echo $? > "$sv/$p.rc" ) &
+  ( ${RTPCHECK_BIN:-/verif/bin/rtpcheck} -prop $p -repo "$wt" -verif "$sv" > "$sv/$p.out" 2>&1; echo $? > "$sv/$p.rc" ) &
 done
 wait
 rules=""
